@@ -138,6 +138,9 @@ def _limit_mem() -> None:
     # a runaway coqc (e.g. a conversion that blows up after a source change) must fail, not take the machine down
     import resource
     resource.setrlimit(resource.RLIMIT_AS, (24 << 30, 24 << 30))
+    # long list/string literals in generated shards make coqc recurse deeply: lift the soft stack limit to the hard one
+    _soft, hard = resource.getrlimit(resource.RLIMIT_STACK)
+    resource.setrlimit(resource.RLIMIT_STACK, (hard, hard))
 
 
 def coq_make(targets: list[str] | None = None, timeout: int = 1500, clean: bool = False) -> tuple[bool, str]:
